@@ -80,6 +80,14 @@ EDITS=[
  ("C20","atoi-leading-zero-decimal","expand/arith.go",("\tcase strings.HasPrefix(s, \"0\"):\n\t\tbase = 8","\tcase strings.HasPrefix(s, \"0\"):\n\t\tbase = 10"),"expand.atoi#ensures@literal-forms"),
  ("C20","atoi-base-limit-36","expand/arith.go",("if err != nil || base < 2 || base > 64 {","if err != nil || base < 2 || base > 36 {"),"expand.atoi#ensures@literal-forms"),
  ("C20","large-base-upper-case-digits","expand/arith.go",("d = int64(c-'A') + 36","d = int64(c-'A') + 10"),"expand.atoiLargeBase#ensures@"),
+ ("C34","comparator-equal-sign-reversed","expand/environ.go",("return cmp.Compare(eq, '=')","return cmp.Compare('=', eq)"),"expand.listEnviron.Get$1#ensures@agrees-with-sort-key"),
+ ("C34","comparator-short-pair-after","expand/environ.go",("\t\t\t// The pair is the name itself, so it sorts before \"name=\".\n\t\t\treturn -1","\t\t\t// The pair is the name itself, so it sorts before \"name=\".\n\t\t\treturn 1"),"expand.listEnviron.Get$1#ensures@agrees-with-sort-key"),
+ ("C34","sort-by-whole-pair","expand/environ.go",("\t\treturn env.compare(a[:isep], b[:jsep])","\t\treturn env.compare(a, b)"),"expand.listEnviron_$1#ensures@compares-keys"),
+ ("C28","select-reply-no-lower-bound","interp/runner.go",("c > 0 && c <= len(items)","c <= len(items)"),"interp.Runner.cmd#index@items[c-1]"),
+ ("C28","alias-loop-steps-back","interp/runner.go",("\t\t\ti += len(als.args)\n","\t\t\ti += len(als.args) - 1\n"),"interp.Runner.cmd#"),
+ ("C28","call-pos-of-empty-args","interp/runner.go",("\t\tif len(fields) == 0 {\n\t\t\tfor _, as := range cm.Assigns {","\t\tif len(fields) == 0 && len(cm.Assigns) > 0 {\n\t\t\tfor _, as := range cm.Assigns {"),"interp.Runner.cmd#index@"),
+ ("C30","set-update-skipped-on-error","interp/builtin.go",("\t\terr := Params(args...)(r)\n\t\t// The options before an invalid one have been set already.\n\t\tr.updateExpandOpts()\n\t\tif err != nil {\n\t\t\treturn failf(2, \"set: %v\\n\", err)\n\t\t}\n","\t\tif err := Params(args...)(r); err != nil {\n\t\t\treturn failf(2, \"set: %v\\n\", err)\n\t\t}\n\t\tr.updateExpandOpts()\n"),"interp#opts-mirrored@Runner.builtin"),
+ ("C30","run-forgets-expand-config","interp/api.go",("\tr.fillExpandConfig(ctx)\n\tr.exit = exitStatus{}","\tr.exit = exitStatus{}"),"interp#opts-mirrored@Runner.Run"),
  ("C20","large-base-accepts-digit-equal-to-base","expand/arith.go",("\t\tif d >= base {\n\t\t\treturn 0","\t\tif d > base {\n\t\t\treturn 0"),"expand.atoiLargeBase#"),
 ]
 SEEDS=[ # prop, seed dir, expect
@@ -101,12 +109,16 @@ SEEDS=[ # prop, seed dir, expect
  ("C28","C23-2","interp.Runner.readLine#inv-pres@"),("C23","C23-2","interp.Runner.readLine#inv-pres@"),("C23","C23-1","expand.ReadFields#inv-"),
  ("C06","C06-2","syntax#eof-exit@Parser.zshSubFlags"),
  ("C08","C06-1","syntax.Parser.reset#"),
+ ("C28","C28-4","interp.Runner.cmd#index@items[c-1]"),("C34","C34-2","expand.listEnviron.Get$1#ensures@agrees-with-sort-key"),("C30","C30-4","interp#opts-mirrored@Runner.builtin"),
  ("C07","C07-1","syntax#refill-retry@Parser.rune"),("C07","C07-2","syntax#refill-at-boundary@Parser.rune"),("C07","C08-2","syntax#refill-at-boundary@Parser.advanceLitHdoc"),
 ]
 REVERTS=[ # prop, fix commit in /repo whose reversal must be caught, expect
  ("C11","bd4a91d","syntax#posix-gate@Parser.arithmExprValue:ParamExp.Index"),
  ("C04","1629043","syntax.simplifier.simplifyWord#onstore@SglQuoted.Dollar"),
  ("C09","c1165de","syntax.Parser.rune#inv-init@loop1.col-tracks-next-byte"),
+ ("C34","3a19e13","expand.listEnviron.Get#ensures@separator-in-name-is-unset"),
+ ("C28","e8575ea","interp.Runner.cmd#panic@"),
+ ("C30","4ce7a80","interp#opts-mirrored@Runner.builtin"),
  ("C07","baece75","syntax#refill-at-boundary@Parser.rune"),
  ("C07","fd8acef","syntax#refill-at-boundary@Parser.next"),
  ("C07","051bed0","syntax#refill-retry@Parser.peekTwo"),
@@ -127,6 +139,7 @@ for prop,name,file,(old,new),expect in EDITS:
     open(f'{out}/{prop}/{name}.patch','w').write(f'# expect: {expect}\n'+diff); n+=1
 for prop,seed,expect in SEEDS:
     p=f'{V}/seeded/{seed}/patch.diff'
+    if os.path.exists(f'{V}/seeded/{seed}/patch.ported.diff'): p=f'{V}/seeded/{seed}/patch.ported.diff'
     if not os.path.exists(p): print('no seed',seed); continue
     # re-base the seed onto the current tree: apply with patch(1) to a scratch copy and re-diff
     with tempfile.TemporaryDirectory(dir='/var/tmp') as d:
